@@ -28,12 +28,14 @@
   anticommutes with the logical it has a set bit on each of the C (resp. R) pairwise disjoint translates
   (`wt_ge_of_grid`, `wt_ge_of_disjoint`).
 
+  The colour 6.6.6 code, ALL odd sizes ≥ 3 (Props/C08/Color666.lean): `distance_lower_color666` and
+  `color666_isDistance : IsDistance … size`.  Disjoint translates cannot exist there (`n < L²`); the proof
+  (Lemmas/DistanceLowerColor666.lean) writes the relevant half of a logical as the complement of a sum of
+  plaquettes (normaliser completeness, C07) and shows by induction on the size — one strip of three rows at a
+  time, a transfer-matrix inequality with an explicit potential — that every selection of plaquettes leaves at
+  least `L` sites evenly covered (`color666_even_cover`).
+
   STATED, NOT PROVED:
-  * the lower bound for the colour 6.6.6 code beyond the kernel-evaluated size (`distance_color666_small_bounded`):
-    for all odd L ≥ 3 and every `e` of length `2 n` with
-      `IsLogical (Color666.stabilizers L) [Color666.logicalX L, Color666.logicalZ L] e`,  `L ≤ wt e`.
-    Meanwhile it is decided per size by the verified search on the real matrices (harness, exhaustive within
-    the budget).
   * `normaliser_complete` (F6(b)): for `S` of rank `n − k` and `2k` logicals with the canonical commutation
     relations, `NormaliserComplete n S L`.  It is used as a hypothesis in `isDistanceSpan_of_isDistance`; the
     other direction (`cert_not_in_span`) is proved.
@@ -49,6 +51,7 @@ import QecVerif.Props.C07.Planar
 import QecVerif.Props.C07.Toric
 import QecVerif.Props.C07.RotatedPlanar
 import QecVerif.Props.C07.RotatedToric
+import QecVerif.Props.C08.Color666
 namespace Qec.C08
 open Qec Qec.Distance
 
